@@ -234,3 +234,46 @@ impl DiffableStr for Ci {
         self.0.as_bytes()
     }
 }
+
+/// A token whose trailing blanks do not count: equality is coarser than the
+/// bytes AND equal tokens can have different lengths.
+#[derive(Debug, Clone)]
+pub struct Trimmed(pub String);
+
+impl Trimmed {
+    fn key(&self) -> &str {
+        self.0.trim_end_matches(' ')
+    }
+    fn text(&self) -> &String {
+        &self.0
+    }
+}
+
+impl PartialEq for Trimmed {
+    fn eq(&self, other: &Self) -> bool {
+        self.key() == other.key()
+    }
+}
+impl Eq for Trimmed {}
+impl Hash for Trimmed {
+    fn hash<H: Hasher>(&self, state: &mut H) {
+        self.key().hash(state)
+    }
+}
+impl PartialOrd for Trimmed {
+    fn partial_cmp(&self, other: &Self) -> Option<Ordering> {
+        Some(self.cmp(other))
+    }
+}
+impl Ord for Trimmed {
+    fn cmp(&self, other: &Self) -> Ordering {
+        self.key().cmp(other.key())
+    }
+}
+
+impl_diffable!(Trimmed);
+
+/// Symbol at position i -> token with 0..=2 trailing blanks.
+pub fn trimmed(x: u32, i: usize) -> Trimmed {
+    Trimmed(format!("tok{}{}", x, " ".repeat((i + x as usize) % 3)))
+}
